@@ -7,7 +7,9 @@
               exactly when a clause of the property is.                                  *)
 EXTENDS TxOnce
 
-CONSTANTS Calls, MaxStmts, MaxBeginFails, MaxLog
+CONSTANTS Calls, MaxStmts, MaxBeginFails, MaxLog,
+          BeginOk,   \* how a Begin may succeed: {"ok"} or {"ok", "okb"} (okb: bound to the caller's context)
+          Ctx        \* TRUE: the caller's context may become done (ctxDone), at any moment
 
 NStmts(L) == Cardinality({i \in DOMAIN L : L[i].e \in {"stmt", "nest"}})
 NFails(L) == Cardinality({i \in DOMAIN L : L[i].e = "begin" /\ L[i].a = "fail"})
@@ -15,8 +17,9 @@ NFails(L) == Cardinality({i \in DOMAIN L : L[i].e = "begin" /\ L[i].a = "fail"})
 PNext ==
   \/ \E t \in Calls : Call(t)
   \/ \E t \in DOMAIN cs :
-       \/ Begin(t, TRUE)
-       \/ NFails(cs[t].log) < MaxBeginFails /\ Begin(t, FALSE)
+       \/ \E a \in BeginOk : Begin(t, a)
+       \/ NFails(cs[t].log) < MaxBeginFails /\ Begin(t, "fail")
+       \/ Ctx /\ cs[t].ctx = "live" /\ CtxDone(t)      \* (a second ctxDone changes nothing)
        \/ BodyStart(t)
        \/ \E a \in {"ok", "fail"} : NStmts(cs[t].log) < MaxStmts /\ Stmt(t, a)
        \/ NStmts(cs[t].log) < MaxStmts /\ Nest(t, "refused")
@@ -27,9 +30,11 @@ PNext ==
 Spec == PInit /\ [][PNext]_pvars
 
 \* every event at every moment, until the first guard violation
+FreeEvents == {ev \in AllEvents : /\ ev.e = "begin" /\ ev.a # "fail" => ev.a \in BeginOk
+                                  /\ ev.e = "ctxDone" => Ctx}
 FreeNext ==
   \/ \E t \in Calls : Call(t)
-  \/ \E t \in DOMAIN cs, ev \in AllEvents : Len(cs[t].log) < MaxLog /\ Observe(t, ev)
+  \/ \E t \in DOMAIN cs, ev \in FreeEvents : Len(cs[t].log) < MaxLog /\ Observe(t, ev)
 FreeSpec == PInit /\ [][FreeNext]_pvars
 
 =============================================================================
